@@ -348,7 +348,7 @@ pub fn run(ctx: &Ctx) -> i32 {
         v
     };
     ctx.class("depth<=2 pool", depth2_pool.len() as u64);
-    let cases = if ctx.thorough() { 5_000_000 } else { 200_000 };
+    let cases = if ctx.thorough() { 150_000_000 } else { 200_000 };
     let len = depth2_pool.len();
     let strat = (0..len, 0..len, any::<bool>());
     search(ctx, "c12", cases, &strat, |(i, j, _)| enc(&depth2_pool[*i], &depth2_pool[*j]), |(i, j, near)| {
